@@ -86,6 +86,12 @@ Theorem C09_site_upstreamMapToSlice_deterministic :
 Proof. exact @site_upstreamMapToSlice_deterministic. Qed.
 Print Assumptions C09_site_upstreamMapToSlice_deterministic.
 
+(* endpoint sets arrive in any order (with repetitions); the generators sort the addresses *)
+Theorem C09_site_endpoints_sorted_deterministic :
+  forall l1 l2 : list string, Permutation l1 l2 -> isort (fun a => a) l1 = isort (fun a => a) l2.
+Proof. exact site_endpoints_sorted_deterministic. Qed.
+Print Assumptions C09_site_endpoints_sorted_deterministic.
+
 (* F13, part 1: generateAPIKeyClients(secret.Data) -- as soon as the Secret has two keys *)
 Theorem C09_site_generateAPIKeyClients_refuted :
   forall hash (l : list (string * string)) x y, In x l -> In y l -> fst x <> fst y ->
